@@ -1,3 +1,181 @@
-From RSV Require Import model.Routing.
-Theorem C19_stub : True. Proof. exact I. Qed.
-Print Assumptions C19_stub.
+(* C19 — Routed dispatch is exact and the authentication gate cannot be bypassed.
+   Statements only; proofs in proofs/RoutingProofs.v; model in model/Routing.v (routing/request_router.py,
+   routing/routing_request_handler.py, extensions/helpers.require_route).
+   Quantification: every registration program rs (any sequence of decorator applications of the five route
+   decorators and the five *_unknown decorators, any route names incl. None / '' / duplicates, any handler signature
+   and behaviour), or directly every table state tb; every request method m of the five; every metadata (unparseable,
+   or any list of routing / authentication / other entries in any order, any tag lists incl. empty ones and tags that
+   are not UTF-8); every verifier (absent, or any function of route and credentials); any deserializer/serializer
+   behaviour.  `Ran h args r`: exactly the registered coroutine h was called, with args; `ErrorOn k w`: none was. *)
+From Coq Require Import NArith List Init.Byte.
+From RSV Require Import gen.GenConst lib.Bytes model.Routing proofs.RoutingProofs.
+Import ListNotations.
+Open Scope N_scope.
+
+(* The tables read off the source agree with the specification's pairing of request methods and decorators: the
+   frame type a request method passes to route() selects the dict its decorator fills and the Handlers field its
+   *_unknown decorator sets, and no two decorators share a dict or a field. *)
+Theorem C19_tables : forall m,
+  assocN (meth_frame_type m) route_map_by_frame_type = Some (deco_slot (deco_of_meth m)) /\
+  assocN (meth_frame_type m) unknown_route_chain = Some (deco_unknown (deco_of_meth m)) /\
+  (forall d d', deco_slot d = deco_slot d' -> d = d') /\
+  (forall d d', deco_unknown d = deco_unknown d' -> d = d') /\
+  (forall m', deco_of_meth m = deco_of_meth m' -> m = m').
+Proof. exact tables_full. Qed.
+Print Assumptions C19_tables.
+
+(* what the router holds after a program of decorator applications: per decorator and name the first successful
+   registration, per decorator the last unknown-route handler *)
+Theorem C19_registration : forall rs d n,
+  lookup_route n (get_slot (deco_slot d) (build rs)) = first_registered rs d n /\
+  get_unknown (deco_unknown d) (build rs) = last_unknown rs d.
+Proof. exact registration. Qed.
+Print Assumptions C19_registration.
+
+(* the route of a request is the first tag of its first routing entry, wherever that entry stands *)
+Theorem C19_first_tag : forall l n, require_route l = inr n <->
+  exists pre tags post, l = pre ++ ERoute (Tag n :: tags) :: post /\ (forall ts, ~ In (ERoute ts) pre).
+Proof. exact require_route_first. Qed.
+Print Assumptions C19_first_tag.
+
+(* EXACT. A handler that ran is the one registered under the request's own decorator for exactly the request's route,
+   or, when there is none, that decorator's unknown-route handler. *)
+Theorem C19_exact : forall rs v des_ok ser_ok m md h args r,
+  dispatch (build rs) v des_ok ser_ok m md = Ran h args r ->
+  exists l n H, md = MItems l /\ require_route l = inr n /\ selected rs m n = Some H /\ hid H = h.
+Proof. exact exact. Qed.
+Print Assumptions C19_exact.
+
+(* ... hence it was registered with this type's decorator (for this very name, or as its unknown-route handler):
+   never a handler known only to another interaction type or another route *)
+Theorem C19_exact_own_type : forall rs v des_ok ser_ok m md h args r,
+  dispatch (build rs) v des_ok ser_ok m md = Ran h args r ->
+  exists l n H, md = MItems l /\ require_route l = inr n /\ hid H = h /\
+    (In (Reg (deco_of_meth m) (Some n) H) rs \/ In (RegUnknown (deco_of_meth m) H) rs).
+Proof. exact exact_own_type. Qed.
+Print Assumptions C19_exact_own_type.
+
+(* the same on any table state, however it was produced *)
+Theorem C19_exact_tables : forall tb v des_ok ser_ok m md h args r,
+  dispatch tb v des_ok ser_ok m md = Ran h args r ->
+  exists l n H, md = MItems l /\ require_route l = inr n /\ hid H = h /\
+    (lookup_route n (get_slot (deco_slot (deco_of_meth m)) tb) = Some H \/
+     (lookup_route n (get_slot (deco_slot (deco_of_meth m)) tb) = None /\
+      get_unknown (deco_unknown (deco_of_meth m)) tb = Some H)).
+Proof. exact exact_tables. Qed.
+Print Assumptions C19_exact_tables.
+
+(* delivery: the selected handler does run once the gate is passed (and the payload deserializer, if a parameter
+   needs it, does not raise — see delivered_needs_deserializer in the proofs file for why that is needed) *)
+Theorem C19_delivered : forall rs v des_ok ser_ok m l n H,
+  require_route l = inr n -> verify_authentication v n l = None -> selected rs m n = Some H ->
+  (forall c, In (Some c) (map needs_deserializer (hparams H)) -> des_ok c = true) ->
+  dispatch (build rs) v des_ok ser_ok m (MItems l) =
+  Ran (hid H) (map arg_of (hparams H)) (expected_result m ser_ok (hdoes H)).
+Proof. exact delivered. Qed.
+Print Assumptions C19_delivered.
+
+(* ERROR ON THAT REQUEST ALONE. With neither a route nor an unknown-route handler for it (or no usable routing
+   entry, or unparseable metadata) no handler runs and the outcome is that interaction's error outcome.  dispatch is
+   a function of the tables and the request and returns no new tables: nothing else is affected. *)
+Theorem C19_error_local : forall rs v des_ok ser_ok m md,
+  (forall l n, md = MItems l -> require_route l = inr n -> selected rs m n = None) ->
+  exists w, dispatch (build rs) v des_ok ser_ok m md = ErrorOn (meth_error m) w.
+Proof. exact error_local. Qed.
+Print Assumptions C19_error_local.
+
+Theorem C19_error_local_other_registrations : forall rs v des_ok ser_ok m l n,
+  require_route l = inr n ->
+  (forall H, ~ In (Reg (deco_of_meth m) (Some n) H) rs) ->
+  (forall H, ~ In (RegUnknown (deco_of_meth m) H) rs) ->
+  exists w, dispatch (build rs) v des_ok ser_ok m (MItems l) = ErrorOn (meth_error m) w.
+Proof. exact other_registrations_never_run. Qed.
+Print Assumptions C19_error_local_other_registrations.
+
+Theorem C19_error_reasons : forall rs v des_ok ser_ok m,
+  dispatch (build rs) v des_ok ser_ok m MUnparseable = ErrorOn (meth_error m) WParse /\
+  (forall l w, require_route l = inl w -> dispatch (build rs) v des_ok ser_ok m (MItems l) = ErrorOn (meth_error m) w) /\
+  (forall l n, require_route l = inr n -> verify_authentication v n l = None -> selected rs m n = None ->
+     dispatch (build rs) v des_ok ser_ok m (MItems l) = ErrorOn (meth_error m) WUnknownRoute).
+Proof. exact error_reasons. Qed.
+Print Assumptions C19_error_reasons.
+
+Theorem C19_no_route_reasons : forall l w, require_route l = inl w ->
+  (w = WNoRoute /\ forall tags, ~ In (ERoute tags) l) \/
+  ((w = WEmptyTags \/ w = WBadTag) /\ exists tags, In (ERoute tags) l).
+Proof. exact require_route_reasons. Qed.
+Print Assumptions C19_no_route_reasons.
+
+(* the per-type error outcome: error future / error stream / (error stream, null subscriber) / swallowed and logged;
+   every error a request ends in, before or after a handler ran, has its own type's kind *)
+Theorem C19_error_kinds :
+  meth_error MResponse = EFuture /\ meth_error MStream = EStream /\ meth_error MChannel = EChannelStream /\
+  meth_error MFnf = ESwallowed /\ meth_error MPush = ESwallowed.
+Proof. exact error_kinds. Qed.
+Print Assumptions C19_error_kinds.
+
+Theorem C19_error_kind_only : forall tb v des_ok ser_ok m md,
+  (forall k w, dispatch tb v des_ok ser_ok m md = ErrorOn k w -> k = meth_error m) /\
+  (forall h args k w, dispatch tb v des_ok ser_ok m md = Ran h args (Failed k w) ->
+     k = meth_error m /\ (w = WHandler \/ (w = WSerialize /\ m = MResponse /\ ser_ok = false))).
+Proof. exact error_kind_only. Qed.
+Print Assumptions C19_error_kind_only.
+
+(* GATE. With a verifier configured, a handler of ANY of the five request methods, on ANY table state (routes and
+   unknown-route handlers alike), runs only for a request that carries an authentication entry whose credentials
+   the verifier accepted for the request's route. *)
+Theorem C19_gate : forall tb f des_ok ser_ok m md h args r,
+  dispatch tb (Some f) des_ok ser_ok m md = Ran h args r ->
+  exists l n a, md = MItems l /\ require_route l = inr n /\ first_auth l = Some a /\ f n a = true.
+Proof. exact gate. Qed.
+Print Assumptions C19_gate.
+
+Theorem C19_gate_no_credentials : forall tb f des_ok ser_ok m l,
+  (forall a, ~ In (EAuth a) l) ->
+  exists w, dispatch tb (Some f) des_ok ser_ok m (MItems l) = ErrorOn (meth_error m) w.
+Proof. exact gate_no_credentials. Qed.
+Print Assumptions C19_gate_no_credentials.
+
+Theorem C19_gate_rejected : forall tb f des_ok ser_ok m l,
+  (forall n a, In (EAuth a) l -> f n a = false) ->
+  exists w, dispatch tb (Some f) des_ok ser_ok m (MItems l) = ErrorOn (meth_error m) w.
+Proof. exact gate_rejected. Qed.
+Print Assumptions C19_gate_rejected.
+
+(* remark: only the FIRST authentication entry is ever shown to the verifier *)
+Theorem C19_gate_first_credentials_only :
+  dispatch (build one_route) (Some only_cred_1) (fun _ => true) true MResponse
+           (MItems [ERoute [Tag [x61]]; EAuth 2; EAuth 1]) = ErrorOn EFuture WAuthRejected /\
+  dispatch (build one_route) (Some only_cred_1) (fun _ => true) true MResponse
+           (MItems [ERoute [Tag [x61]]; EAuth 1; EAuth 2]) = Ran 7 [] (Delivered DFuture).
+Proof. exact gate_first_credentials_only. Qed.
+Print Assumptions C19_gate_first_credentials_only.
+
+(* ARGUMENTS. Each declared parameter of the handler that ran received: the parsed composite metadata when it is
+   named composite_metadata or annotated CompositeMetadata; the payload when it has no annotation or is annotated
+   Payload; the deserializer's output for its annotation otherwise (and the deserializer returned for all of them). *)
+Theorem C19_arguments : forall rs v des_ok ser_ok m md h args r,
+  dispatch (build rs) v des_ok ser_ok m md = Ran h args r ->
+  exists l n H, md = MItems l /\ require_route l = inr n /\ selected rs m n = Some H /\ hid H = h /\
+    args = map arg_of (hparams H) /\
+    (forall c, In (Some c) (map needs_deserializer (hparams H)) -> des_ok c = true) /\
+    r = expected_result m ser_ok (hdoes H).
+Proof. exact arguments. Qed.
+Print Assumptions C19_arguments.
+
+Theorem C19_argument_table : forall a c,
+  arg_of {| p_named_cm := true; p_annot := a |} = VComposite /\
+  arg_of {| p_named_cm := false; p_annot := AnComposite |} = VComposite /\
+  arg_of {| p_named_cm := false; p_annot := AnEmpty |} = VPayload /\
+  arg_of {| p_named_cm := false; p_annot := AnPayload |} = VPayload /\
+  arg_of {| p_named_cm := false; p_annot := AnOther c |} = VDeserialized c.
+Proof. exact arg_table. Qed.
+Print Assumptions C19_argument_table.
+
+(* remark: the NAME wins over the annotation — `composite_metadata: Payload` receives the composite metadata *)
+Theorem C19_arguments_name_overrides_annotation :
+  dispatch (build [Reg DStream (Some [x61]) {| hid := 1; hparams := [{| p_named_cm := true; p_annot := AnPayload |}];
+                                               hdoes := HRetOther |}])
+           None (fun _ => true) true MStream (MItems [ERoute [Tag [x61]]]) = Ran 1 [VComposite] (Delivered DAsIs).
+Proof. exact name_overrides_annotation. Qed.
+Print Assumptions C19_arguments_name_overrides_annotation.
